@@ -292,7 +292,9 @@ fn flat_tail<T: Scalar>(spec: &Spec, pdepth: usize, rel: f64, st: &mut Stats, si
                 inst.update(T::of(c));
                 h.push(c);
                 st.transitions += 1;
-                let judged = if spec.kind == CyberCycle { i == maxlen } else { lens.contains(&i) };
+                // (a view whose state is exactly the last N values has a flat window after N of them)
+                let window_is_n = matches!(spec.kind, Vst | Vsct | WelfordOnline | HLNormalizer | Cti | Net | Sma);
+                let judged = if spec.kind == CyberCycle { i == maxlen } else { lens.contains(&i) || (window_is_n && i == n) };
                 if !judged {
                     continue;
                 }
@@ -365,6 +367,20 @@ pub fn run(ctx: &Ctx) -> CheckOutput {
                 let sink = Sink::new();
                 drift_windowed::<f32>(&spec, &F6, period.min(3), len32, 1e-2, &mut st, &sink);
                 JobOut { stats: st, viols: sink.take(), samples: vec![json!({"clause":"drift","scalar":"f32","view":spec.name(),"steps":len32})] }
+            }));
+        }
+    }
+    // a second alphabet inside the same three decades: a level near 900 with steps near 1 and one value
+    // at 1 (an outlier whose departure leaves a tight window behind)
+    const H5: [f64; 5] = [900.0, 901.3, 899.1, 1.0, 905.7];
+    for n in &ns {
+        for spec in windowed_specs(*n) {
+            jobs.push(Box::new(move || {
+                let mut st = Stats::default();
+                let sink = Sink::new();
+                drift_windowed::<f32>(&spec, &H5, period.min(3), len32, 1e-2, &mut st, &sink);
+                drift_windowed::<f64>(&spec, &H5, period.min(3), len64 / 5, 1e-6, &mut st, &sink);
+                JobOut { stats: st, viols: sink.take(), samples: vec![json!({"clause":"drift","scalar":"f32, f64","view":spec.name(),"driver":"every cycle over {900, 901.3, 899.1, 1, 905.7} of period<=3","steps_f32":len32,"steps_f64":len64 / 5})] }
             }));
         }
     }
